@@ -189,6 +189,61 @@ impl UnitRunner for C14 {
         Outcome::Panic(m) => out.fail(format!("C14|panic|literal:{}", uname), case, m.clone()),
         _ => { out.count("literal_rejected"); out.set("rejected_literals", &a_lit); }
       }
+      // ---- the same literal with its elements given by variables (immutable, mutable, or variables mixed with literals): it denotes the
+      // same set - same distinct elements, same memberships, and it combines with the all-literal spelling like an equal set
+      if !a_seq.is_empty() && a_seq.len() <= 3 {
+        // spelling 4: elements that are themselves built from variables (tuples / nested sets with variable components, formulas over variables)
+        let composed: Option<(&str, Vec<&str>)> = match uname { "tuple" => Some(("p1 := 1; p2 := 2", vec!["(p1,p2)", "(p2,p1)", "(p1,p2)", "(p1,\"x\")"])), "set" => Some(("p1 := 1; p2 := 2; p3 := 3", vec!["{p1,p2}", "{p2,p1}", "{p3}"])), "f64" => Some(("p1 := 1; p2 := 2", vec!["p1 * 1", "p1 + 1", "p1 + p2", "p2 * p2"])), _ => None };
+        for (spi, spelling) in ["variables", "mutable-variables", "variable-then-literals", "literals-then-variable", "elements-composed-of-variables"].iter().enumerate() {
+          if a_seq.len() == 1 && (spi == 2 || spi == 3) { continue; }
+          if spi == 4 && composed.is_none() { continue; }
+          let mut s = Session::new();
+          let mut ok = s.run(&format!("a := {}", a_lit)).is_value();
+          let prelude: String = if spi == 4 { composed.as_ref().unwrap().0.to_string() } else { (0..nel).map(|i| format!("{}v{} := {}", if spi == 1 { "~" } else { "" }, i, u.elems[i])).collect::<Vec<_>>().join("; ") };
+          for d in prelude.split("; ") { ok = ok && s.run(d).is_value(); }
+          if !ok { out.count("element_variable_define_rejected"); continue; }
+          let last = a_seq.len() - 1;
+          let lit2 = format!("{{{}}}", a_seq.iter().enumerate().map(|(p, i)| { if spi == 4 { return composed.as_ref().unwrap().1[*i].to_string(); } let var = match spi { 0 | 1 => true, 2 => p == 0, _ => p == last }; if var { format!("v{}", i) } else { u.elems[*i].to_string() } }).collect::<Vec<_>>().join(","));
+          let case = format!("{}; a2 := {}", prelude, lit2);
+          let locus = format!("literal-of-{}:{}", spelling, uname);
+          out.evaluations += 1;
+          let o = s.run(&format!("a2 := {}", lit2));
+          match &o {
+            Outcome::Panic(m) => out.fail(format!("C14|panic|{}", locus), case.clone(), m.clone()),
+            Outcome::Value(c) => {
+              out.nontrivial += 1;
+              if let (Some(got), Some(want)) = (check_set(c, &locus, &case, out), want_keys(&a_cls)) {
+                if got != want { out.fail(format!("C14|wrong-result|{}", locus), case.clone(), format!("distinct elements {:?}, got {}", want, c.short())); }
+              }
+              out.evaluations += 1;
+              if let Outcome::Value(Canon::Num(_, t)) = &s.run("z2 := set/size(a2)") { out.nontrivial += 1; if t.parse::<usize>().ok() != Some(a_cls.len()) { out.fail(format!("C14|wrong-size|set/size:{}", locus), case.clone(), format!("set/size = {}, {} distinct elements", t, a_cls.len())); } }
+              for e in 0..nel {
+                out.evaluations += 1;
+                let om = s.run(&format!("m{} := {} ∈ a2", e, u.elems[e]));
+                match &om {
+                  Outcome::Value(Canon::Bool(b)) => { out.nontrivial += 1; if *b != a_cls.contains(&u.class[e]) { out.fail(format!("C14|wrong-result|∈:{}", locus), format!("{}; r := {} ∈ a2", case, u.elems[e]), format!("got {}", b)); } }
+                  Outcome::Panic(m) => out.fail(format!("C14|panic|∈:{}", locus), format!("{}; r := {} ∈ a2", case, u.elems[e]), m.clone()),
+                  _ => out.fail(format!("C14|operand-form-rejected|∈:{}", locus), format!("{}; r := {} ∈ a2", case, u.elems[e]), format!("membership in a set literal built from variables is rejected: {}", om.short())),
+                }
+              }
+              // against the all-literal spelling of the same set
+              for (n, (expr, want_cls, want_bool)) in [("a2 ∪ a", Some(a_cls.clone()), None), ("a ∩ a2", Some(a_cls.clone()), None), ("a2 ∖ a", Some(BTreeSet::new()), None), ("a2 ⊆ a", None, Some(true)), ("a ⊆ a2", None, Some(true)), ("a2 ⊊ a", None, Some(false))].iter().enumerate() {
+                out.evaluations += 1;
+                let oo = s.run(&format!("w{} := {}", n, expr));
+                let c2 = format!("a := {}; {}; r := {}", a_lit, case, expr);
+                match (&oo, want_cls, want_bool) {
+                  (Outcome::Panic(m), _, _) => out.fail(format!("C14|panic|{}:{}", expr, locus), c2, m.clone()),
+                  (Outcome::Value(cv), Some(wc), _) => { out.nontrivial += 1; if let (Some(got), Some(want)) = (check_set(cv, &format!("{}:{}", expr, locus), &c2, out), want_keys(wc)) { if got != want { out.fail(format!("C14|wrong-result|{}:{}", expr, locus), c2, format!("mathematical result has elements {:?}, got {}", want, cv.short())); } } else if !wc.is_empty() { out.fail(format!("C14|wrong-result|{}:{}", expr, locus), c2, format!("got {}", cv.short())); } }
+                  (Outcome::Value(Canon::Bool(g)), None, Some(w)) => { out.nontrivial += 1; if g != w { out.fail(format!("C14|wrong-result|{}:{}", expr, locus), c2, format!("definition gives {}, got {}", w, g)); } }
+                  (Outcome::Value(cv), None, _) => out.fail(format!("C14|wrong-result|{}:{}", expr, locus), c2, format!("relation must be a Boolean, got {}", cv.short())),
+                  _ => { if s.run(&format!("wb{} := {}", n, expr.replace("a2", "a"))).is_value() { out.fail(format!("C14|operand-form-rejected|{}:{}", expr, locus), c2, format!("accepted for two all-literal sets, rejected here: {}", oo.short())); } else { out.count("operator_rejected_for_literals_too"); } }
+                }
+              }
+            }
+            _ => { if s.get("a").is_some() { out.fail(format!("C14|operand-form-rejected|{}", locus), case.clone(), format!("the all-literal spelling {} is accepted, this one is rejected: {}", a_lit, o.short())); } }
+          }
+        }
+      }
       if let Some(mk) = u.matrix_kind {
         if !a_seq.is_empty() {
           out.evaluations += 1;
